@@ -172,11 +172,26 @@ def run(ctx):
                 buf[:] = X
                 X = buf
                 ctx.count('dense:re-used estimator and buffer')
+            elif ctx.rng.random() < 0.35:
+                # the same estimator was fitted before on a matrix of ANOTHER shape (fewer singular values than it is
+                # asked to keep, or more); the rule is about the constructor's parameters and the matrix fitted last
+                m0, n0 = ctx.rng.randint(1, 7), ctx.rng.randint(1, 7)
+                try:
+                    t.fit(rs.randn(m0, n0))
+                except ValueError:
+                    pass
+                ctx.count('dense:re-used estimator, other shape before')
+            before = repr(sorted(t.get_params().items()))
             try:
                 t.fit(X)
             except ValueError:
                 ctx.count('dense:raised')
                 continue
+            if repr(sorted(t.get_params().items())) != before or (t.truncation, t.truncation_param) != (method, param):
+                ctx.fail(f'Tsvd.fit changed the hyper-parameters: {t.get_params()} (constructed with {method}, {param})',
+                         {'X': np.asarray(X).tolist(), 'method': method, 'param': param}, {'method': method})
+                if stop_at_first:
+                    return
             ctx.count('dense:' + kind)
             ctx.record_case({'dense': kind, 'shape': [m, n], 'method': method, 'param': param}, True)
             why = oracle_factors(X, t, method, param)
